@@ -1,27 +1,19 @@
 #!/bin/bash
 # Re-runs every confirmed seeded change (seeded/*/patch.diff) against the quick
 # check of its property (and the other checks recorded in its meta.json) in a
-# scratch worktree, and writes seeded/RESULTS.md. /repo is never touched.
+# scratch worktree, updates each meta.json and writes seeded/RESULTS.md.
+# /repo is never touched.   usage: scripts/rerun_seeded.sh [jobs] [name-glob]
 cd "$(dirname "$0")/.."
-out=seeded/RESULTS.md
-{
-  echo "# Seeded changes (written by independent sub-agents, confirmed by me): detection results"
-  echo
-  echo "Produced by scripts/rerun_seeded.sh with the machinery as committed. exit=1 means the registered quick check reports a VIOLATION on the changed tree."
-  echo
-  echo "| change | property | needs to manifest | checks run (exit code) | violation kinds |"
-  echo "|---|---|---|---|---|"
-} > "$out"
-for d in seeded/*/; do
+jobs=${1:-2}; glob=${2:-*}
+tmp=$(mktemp -d "${TMPDIR:-/var/tmp}/verif-rerun.XXXXXX")
+one() {
+  d=$1; tmp=$2
   n=$(basename "$d")
-  [ -f "$d/patch.diff" ] || continue
   prop=$(python3 -c "import json;print(json.load(open('$d/meta.json'))['property'])")
   others=$(python3 -c "import json;print(' '.join(k for k in json.load(open('$d/meta.json')).get('quick_checks_run_against_it',{}) if k!='$prop'))")
-  needs=$(python3 -c "import json;print((json.load(open('$d/meta.json')).get('needs_to_manifest') or '').replace('|','/').replace('\n',' ')[:260])")
   res=$(scripts/mutant_run.sh "$d/patch.diff" quick $prop $others 2>&1)
   codes=$(echo "$res" | grep -o "^C[0-9]* exit=[0-9]*" | tr '\n' ' ')
   kinds=$(echo "$res" | grep -o "kind=[^ ]*" | sed 's/kind=//; s#/var/tmp/[^ ]*/repo/##' | sort -u | head -5 | tr '\n' ' ')
-  echo "| $n | $prop | $needs | $codes | $kinds |" >> "$out"
   echo "$n: $codes"
   python3 - "$d/meta.json" "$codes" "$kinds" <<'PY'
 import json,sys,re
@@ -31,4 +23,19 @@ m["quick_checks_run_against_it"]={a:int(b) for a,b in re.findall(r"(C\d+) exit=(
 m["violation_kinds_reported"]=kinds.split()
 json.dump(m,open(p,"w"),indent=1)
 PY
-done
+}
+export -f one
+ls -d seeded/$glob/ | while read d; do [ -f "$d/patch.diff" ] && echo "${d%/}"; done | xargs -P "$jobs" -I{} bash -c 'one {} '"$tmp"
+rm -rf "$tmp"
+python3 - <<'PY'
+import json,glob,os
+rows=["# Seeded changes (written by independent sub-agents, confirmed by me): detection results","",
+"Produced by scripts/rerun_seeded.sh with the machinery as committed. exit=1 means the registered quick check reports a VIOLATION on the changed tree.","",
+"| change | property | needs to manifest | checks run (exit code) | violation kinds |","|---|---|---|---|---|"]
+for p in sorted(glob.glob("seeded/*/meta.json")):
+    m=json.load(open(p)); n=os.path.basename(os.path.dirname(p))
+    needs=(m.get("needs_to_manifest") or "").replace("|","/").replace("\n"," ")[:260]
+    codes=" ".join(f"{k} exit={v}" for k,v in (m.get("quick_checks_run_against_it") or {}).items())
+    rows.append(f"| {n} | {m.get('property')} | {needs} | {codes} | {' '.join((m.get('violation_kinds_reported') or [])[:5])} |")
+open("seeded/RESULTS.md","w").write("\n".join(rows)+"\n")
+PY
